@@ -104,9 +104,47 @@ def shape_of(params):
     return s, T
 
 
+# SUB-OBJECT aliasing: a destination `A&` and a const operand `const B&` where B is the type of a public member / half /
+# coefficient of A (or A of B): the operand can live INSIDE the destination (a.Value, W.Low, R[i], r.num) or the
+# destination inside the operand.
+SUBOBJECT = [("rmint<K,MG>", "ruint<K>"), ("rmint<K,MG_ACTIVE>", "ruint<K>"), ("rmint<K,MG_INACTIVE>", "ruint<K>"),
+             ("ruint<K+1>", "ruint<K>"), ("rint<K>", "ruint<K>"), ("Rep", "Type_t"), ("Rational", "Integer"), ("Element", "BFElement")]
+
+
+def subshape_of(params):
+    """(shape, 'A>B') for a declaration with a destination A& and a const operand B& (or the converse) related by SUBOBJECT"""
+    ty = []
+    for p in params:
+        p = p.strip()
+        if p.endswith("&") and not p.endswith("&&") and not p.startswith("const "):
+            ty.append(("D", norm_type(p[:-1])))
+        elif p.startswith("const ") and p.endswith("&"):
+            ty.append(("C", norm_type(p[6:-1])))
+        else:
+            ty.append(("x", norm_type(p)))
+    for A, B in SUBOBJECT:
+        for big, small, tag in ((A, B, A + ">" + B), (B, A, B + "<" + A)):
+            ds = [k for k, (m, t) in enumerate(ty) if m == "D" and t == big]
+            cs = [k for k, (m, t) in enumerate(ty) if m == "C" and t == small]
+            if ds and cs:
+                return "".join("D" if k in ds else "S" if k in cs else "C" if ty[k][0] == "C" and ty[k][1] == big else "x" for k in range(len(ty))), tag
+    return None
+
+
+SUBDECLS = {}
+
+
+def scope_hint(stack, kind="FunctionDecl"):
+    ns = [s[2] for s in stack[:-1] if s[1] == "NamespaceDecl" and s[2]]
+    recs = [s for s in stack[:-1] if s[1] in ("CXXRecordDecl", "ClassTemplateSpecializationDecl", "ClassTemplatePartialSpecializationDecl")]
+    return "::".join(ns + ([recs[-1][2]] if recs and kind == "CXXMethodDecl" else []))
+
+
 def declarations(timeout=600):
-    """{key: [locations]} of the public three-address declarations; also the number of function declarations seen"""
+    """{key: [locations]} of the public three-address declarations; also the number of function declarations seen.
+    Side result: SUBDECLS = the declarations whose destination and a const operand are related by SUBOBJECT."""
     out, nseen = {}, 0
+    SUBDECLS.clear()
     errs = ""
     for flt in ("Givaro", "RecInt"):
         rc, txt, err = dump(flt, timeout)
@@ -179,6 +217,9 @@ def declarations(timeout=600):
             if params is None:
                 continue
             nseen += 1
+            ssh = subshape_of(params)
+            if ssh is not None and not (scope_hint(stack).startswith("std")):
+                SUBDECLS.setdefault((scope_hint(stack, kind), name, "sub:" + ssh[0] + ":" + ssh[1]), set()).add(os.path.basename(curfile))
             sh = shape_of(params)
             if sh is None:
                 continue
@@ -199,3 +240,6 @@ if __name__ == "__main__":
     for k in sorted(d):
         print("%-40s %-22s %-40s %s" % (k[0], k[1], k[2], ",".join(d[k])))
     print(len(d), "three-address declarations among", n, "function declarations")
+    for k in sorted(SUBDECLS):
+        print("SUB %-36s %-18s %-44s %s" % (k[0], k[1], k[2], ",".join(sorted(SUBDECLS[k]))))
+    print(len(SUBDECLS), "sub-object declarations")
